@@ -13,9 +13,10 @@ Operator.adjoint below return tokens).  The constructors of the block classes ar
                inner products (the constructors reject weighted product spaces).
 """
 import numpy as np
+import z3
 
 from pyvc import core, interp as ip
-from pyvc.core import Unsupported, VVar
+from pyvc.core import S, Unsupported, VVar
 from pyvc.harness import Unit
 from contracts import lib, oplib
 from contracts.lib import content
@@ -494,3 +495,197 @@ def native_replay(ob):
     except Exception as e:
         return {'reproduced': True, 'detail': 'native evaluation raised %s: %s' % (type(e).__name__, e), 'input': dict(rp)}
     return {'reproduced': False, 'detail': 'no native concretisation for this obligation kind'}
+
+
+# --------------------------------------------------------------------------
+# ResizingOperator: which resize_array call the operator, its adjoint and the adjoint's adjoint make
+
+DOPS = 'odl.discr.discr_ops:'
+RESIZE_SHAPES = [((4,), (6,)), ((6,), (4,)), ((4, 5), (6, 7)), ((4, 5), (3, 4)), ((4, 5), (3, 7)), ((4, 5), (6, 3)), ((4, 5), (4, 7)), ((3, 4, 5), (2, 4, 7))]
+
+
+def unit_resizing_operator(pad_mode, dshape, rshape):
+    """ResizingOperator(domain -> range, pad_mode).adjoint: an operator range -> domain whose evaluation is exactly ONE call
+    resize_array(x, domain.shape, offset=op.offset, pad_mode=op.pad_mode, pad_const=0, direction='adjoint', out=<the array of out>) - the transpose proved in
+    C16 for that very mode and offset - for EVERY combination of growing / shrinking axes; its adjoint is the operator itself; the forward `_call` makes the
+    matching direction='forward' call.  (A different operator is accepted only where C16 proves it equal: zero-padding forward resize when no axis grows.)"""
+    def run(ctx):
+        I = ctx.I
+
+        def path(st):
+            from contracts import tlib
+            tlib.install(st)
+            st.cuts.update(oplib.operator_cuts())
+            calls = []
+
+            class Sp(object):
+                def __init__(self, tag, shape):
+                    self.tag, self.shape = tag, shape
+
+                def __repr__(self):
+                    return '<space %s %r>' % (self.tag, self.shape)
+
+                def pv_isinstance(self, I_, cls):
+                    return getattr(cls, 'name', None) in ('Set', 'LinearSpace', 'TensorSpace', 'DiscretizedSpace')
+
+                def pv_getattr(self, I_, fr_, name):
+                    if name == 'shape':
+                        return self.shape
+                    if name == 'ndim':
+                        return len(self.shape)
+                    raise Unsupported('space .%s' % name)
+
+            class Arr(object):
+                def __init__(self, tag):
+                    self.tag = tag
+
+                def __repr__(self):
+                    return '<array %s>' % self.tag
+
+            class El(object):
+                def __init__(self, tag):
+                    self.tag, self.arr = tag, Arr(tag)
+
+                def pv_getattr(self, I_, fr_, name):
+                    if name == 'asarray':
+                        return ip.Builtin('asarray', lambda I2, fr2, a, k: self.arr)
+                    raise Unsupported('element .%s' % name)
+
+            class CM(object):
+                def __init__(self, el):
+                    self.el = el
+
+                def pv_enter(self, I_, fr_):
+                    return self.el.arr
+
+                def pv_exit(self, I_, fr_, exc):
+                    return None
+
+            def writable(I_, fr_, obj, **kw):
+                if not isinstance(obj, El):
+                    raise Unsupported('writable_array(%r)' % (obj,))
+                return CM(obj)
+
+            def resize(I_, fr_, *a, **kw):
+                calls.append((a, dict(kw)))
+                return kw.get('out')
+
+            def ro_init(I_, fr_, self, *a, **kw):
+                self.fields['ctor'] = ('ResizingOperator', tuple(a), dict(kw))
+                return None
+            st.cuts['odl.util.utility:writable_array'] = writable
+            st.cuts['odl.util.numerics:resize_array'] = resize
+            st.cuts[DOPS + 'ResizingOperator.__init__'] = ro_init
+            fr = ip.Frame(st)
+            dom, ran = Sp('dom', dshape), Sp('ran', rshape)
+            off = tuple(1 for _ in dshape)
+            pc = S(z3.Real('pad_const')) if pad_mode == 'constant-nonzero' else 0.0
+            mode = 'constant' if pad_mode.startswith('constant') else pad_mode
+            op = ip.Obj(I.get_class(DOPS + 'ResizingOperator'))
+            op.fields.update({'_Operator__domain': dom, '_Operator__range': ran, '_Operator__is_linear': pad_mode != 'constant-nonzero',
+                              '_ResizingOperator__offset': off, '_ResizingOperator__pad_mode': mode, '_ResizingOperator__pad_const': pc})
+            if pad_mode == 'constant-nonzero':
+                st.assume(core.s_not(core.sc_eq(pc, 0)))
+            out = {}
+            # forward call
+            x, y = El('x'), El('y')
+            callf = I.get_class(DOPS + 'ResizingOperator').lookup('_call')
+            I.call(I.class_entry_value(callf[0], '_call', callf[1]), [op, x, y], {}, fr)
+            out['fwd'] = list(calls)
+            del calls[:]
+            try:
+                adj = I._getattr(op, 'adjoint', fr)
+            except ip.PyRaise as e:
+                return ('adj-raise', (e.exc, out))
+            out['adj'] = adj
+            if isinstance(adj, ip.Obj) and 'ctor' not in adj.fields:
+                u, v = El('u'), El('v')
+                c, e = adj.cls.lookup('_call')
+                I.call(I.bind_entry(adj, c, '_call', e, fr), [u, v], {}, fr)
+                out['adjcalls'] = list(calls)
+                out['u'], out['v'] = u, v
+                out['adjadj'] = I._getattr(adj, 'adjoint', fr)
+                out['adj_dom'], out['adj_ran'] = I._getattr(adj, 'domain', fr), I._getattr(adj, 'range', fr)
+                out['adj_lin'] = I._getattr(adj, 'is_linear', fr)
+            out.update(op=op, dom=dom, ran=ran, off=off, mode=mode, pc=pc, x=x, y=y)
+            return ('ok', out)
+        info = {'pad_mode': pad_mode, 'domain_shape': list(dshape), 'range_shape': list(rshape)}
+        rp = dict(info, kind='resizing_operator')
+        for st, (status, r) in ctx.explore(path):
+            if status == 'adj-raise':
+                ctx.prove(st, 'a non-linear resizing operator (constant padding, non-zero constant) has no adjoint: NotImplementedError', pad_mode == 'constant-nonzero' and
+                          lib.exc_name(r[0]) == 'NotImplementedError', dict(info, got=lib.exc_desc(r[0])), replay=rp)
+                continue
+
+            def one_call(calls, xarr, shape, direction, pcval, outarr):
+                if len(calls) != 1:
+                    return False
+                a, kw = calls[0]
+                names = ['arr', 'newshp', 'offset', 'pad_mode', 'pad_const', 'direction', 'out']
+                full = dict(zip(names, a))
+                full.update(kw)
+                pcok = full.get('pad_const', 0) is pcval or (not core.is_sym(pcval) and not core.is_sym(full.get('pad_const', 0)) and full.get('pad_const', 0) == pcval)
+                return full.get('arr') is xarr and tuple(full.get('newshp')) == tuple(shape) and tuple(full.get('offset') or ()) == tuple(r['off']) and \
+                    full.get('pad_mode') == r['mode'] and pcok and full.get('direction', 'forward') == direction and full.get('out') is outarr
+            ctx.prove(st, 'forward: one resize_array(x, range.shape, offset, pad_mode, pad_const, direction=forward, out=array of out)',
+                      one_call(r['fwd'], r['x'].arr, rshape, 'forward', r['pc'], r['y'].arr), dict(info, got=repr(r['fwd'])), replay=rp)
+            if pad_mode == 'constant-nonzero':
+                ctx.fail(st, 'a non-linear resizing operator has no adjoint', 'returned %r' % (r['adj'],), info, replay=rp)
+                continue
+            adj = r['adj']
+            if isinstance(adj, ip.Obj) and 'ctor' in adj.fields:
+                cn, a, kw = adj.fields['ctor']
+                full = dict(zip(['domain', 'range'], a))
+                full.update(kw)
+                grows = any(rs > ds for ds, rs in zip(dshape, rshape))
+                same = full.get('domain') is r['ran'] and full.get('range') is r['dom'] and full.get('pad_mode', 'constant') == 'constant' and \
+                    full.get('pad_const', 0) in (0, 0.0) and 'ran_shp' not in full and 'offset' not in full
+                ctx.prove(st, 'a forward zero-padding ResizingOperator(range -> domain) stands in for the adjoint only where no axis grows (or the padding is zero-padding)',
+                          same and (not grows or r['mode'] == 'constant'), dict(info, got=repr(adj.fields['ctor'])), replay=rp)
+                continue
+            ok = isinstance(adj, ip.Obj) and 'adjcalls' in r
+            ctx.prove(st, 'adjoint is an operator', ok, dict(info, got=repr(adj)), replay=rp)
+            if not ok:
+                continue
+            ctx.prove(st, 'adjoint maps range -> domain and is linear', r['adj_dom'] is r['ran'] and r['adj_ran'] is r['dom'] and r['adj_lin'] is True, info, replay=rp)
+            ctx.prove(st, 'adjoint: one resize_array(x, domain.shape, offset, pad_mode, pad_const=0, direction=adjoint, out=array of out)',
+                      one_call(r['adjcalls'], r['u'].arr, dshape, 'adjoint', 0, r['v'].arr), dict(info, got=repr(r['adjcalls'])), replay=rp)
+            ctx.prove(st, 'adjoint.adjoint is the operator itself', r['adjadj'] is r['op'], info, replay=rp)
+    return Unit('resizing/%s/%s->%s' % (pad_mode, 'x'.join(map(str, dshape)), 'x'.join(map(str, rshape))), run,
+                funcs=[DOPS + 'ResizingOperator.adjoint', DOPS + 'ResizingOperator._call'], config={'pad_mode': pad_mode, 'domain_shape': list(dshape), 'range_shape': list(rshape)})
+
+
+def resizing_units():
+    us = []
+    for mode in ('constant', 'symmetric', 'periodic', 'order0', 'order1'):
+        for d, r in RESIZE_SHAPES:
+            us.append(unit_resizing_operator(mode, d, r))
+    us.append(unit_resizing_operator('constant-nonzero', (4, 5), (6, 7)))
+    return us
+
+
+def resizing_native_replay(ob):
+    import os
+    import sys
+    root = os.environ.get('PYVC_REPO', '/repo')
+    if root not in sys.path:
+        sys.path.insert(0, root)
+    import odl
+    rp = ob.get('replay') or {}
+    d, r, mode = tuple(rp['domain_shape']), tuple(rp['range_shape']), rp['pad_mode']
+    if mode == 'constant-nonzero':
+        return {'reproduced': False, 'detail': 'no native concretisation for this obligation kind'}
+    rng = np.random.default_rng(4)
+    X = odl.uniform_discr([0] * len(d), [float(n) for n in d], d)
+    for off in (None, tuple(1 if rs != ds else 0 for ds, rs in zip(d, r))):
+        try:
+            A = odl.ResizingOperator(X, ran_shp=r, offset=off, pad_mode=mode)
+            x, y = X.element(rng.standard_normal(d)), A.range.element(rng.standard_normal(r))
+            lhs, rhs = A(x).inner(y), x.inner(A.adjoint(y))
+            if abs(lhs - rhs) > 1e-9 * max(1.0, abs(lhs)):
+                return {'reproduced': True, 'detail': 'ResizingOperator(%r -> %r, offset=%r, pad_mode=%r): <A x, y> = %r but <x, A.adjoint y> = %r' % (d, r, off, mode, lhs, rhs), 'input': dict(rp)}
+            if (A.adjoint.adjoint(x) - A(x)).norm() > 1e-9:
+                return {'reproduced': True, 'detail': 'ResizingOperator(%r -> %r, pad_mode=%r): adjoint.adjoint does not act like the operator' % (d, r, mode), 'input': dict(rp)}
+        except Exception as e:
+            return {'reproduced': True, 'detail': 'native evaluation raised %s: %s' % (type(e).__name__, e), 'input': dict(rp)}
+    return {'reproduced': False, 'detail': 'adjoint identity holds natively'}
